@@ -346,6 +346,10 @@ def header_text(spec, nlev=None):
     grid = [[g * 2 ** lv for g in spec["grid0"]] for lv in range(nlev)]
     dx = [[x / 2 ** lv for x in spec["dx0"]] for lv in range(nlev)]
     geo_high = [spec["geo_low"][d] + spec["dx0"][d] * spec["grid0"][d] for d in range(nd)]
+    if spec.get("nominal_hi"):
+        # a code that prints the domain bound it was given (0.9) next to box bounds it computes (0.2 + 10 * 0.07 =
+        # 0.8999999999999999): the two differ in the last place
+        geo_high = [max(x, float(f"{x:.12g}")) for x in geo_high]
     t = _f(spec["time"])
     L = ["HyperCLaw-V1.1", str(len(fields))] + list(fields) + [str(nd), t, str(nlev - 1)]
     L.append(" ".join(_f(x) for x in spec["geo_low"]) + sp)
@@ -361,8 +365,11 @@ def header_text(spec, nlev=None):
     # "subcycle": a sub-cycling run has taken twice as many steps on each finer level; "coord_sys": 0 cartesian, 1 RZ, 2 spherical
     steps = [spec.get("step", 7) * (2 ** lv if spec.get("subcycle") else 1) for lv in range(nlev)]
     L.append(" ".join(str(s) for s in steps) + sp)
+    # "dx_digits": cell sizes printed with that many significant digits (a writer of lower precision than AMReX's 17:
+    # the sizes of consecutive levels are then no longer exactly halved)
+    fdx = (lambda x: f"{x:.{int(spec['dx_digits'])}g}") if spec.get("dx_digits") else _f
     for lv in range(nlev):
-        L.append(" ".join(_f(x) for x in dx[lv]) + sp)
+        L.append(" ".join(fdx(x) for x in dx[lv]) + sp)
     L += [str(spec.get("coord_sys", 0)), "0"]
     for lv in range(nlev):
         L.append(f"{lv} {len(spec['levels'][lv])} {t}")
@@ -429,9 +436,22 @@ def materialize(spec, path, nlev=None):
                 ch.write(",".join(f"{m:.16e}" for m in mins[bid]) + ",\n")
             ch.write(f"\n{len(boxes)},{nf}\n")
             for bid in range(len(boxes)):
-                ch.write(",".join(f"{m:.16e}" for m in maxs[bid]) + ",\n")
-            ch.write("\n")
+                last = spec.get("cellh_no_final_newline") and bid == len(boxes) - 1
+                ch.write(",".join(f"{m:.16e}" for m in maxs[bid]) + ("," if last else ",\n"))
+            if not spec.get("cellh_no_final_newline"):
+                ch.write("\n")
     return truth
+
+
+def ulp_below(n):
+    """(lo, dx) such that the computed upper bound lo + n*dx is a float just BELOW its 12-digit decimal (None if none of the
+    candidates does it for this n)"""
+    for lo in (0.2, 0.1, -0.3, 1.1, 0.7, -1.3):
+        for dx in (0.07, 0.03, 0.011, 0.13, 0.0007, 0.9, 0.21):
+            x = lo + n * dx
+            if x < float(f"{x:.12g}"):
+                return lo, dx
+    return None
 
 
 def describe(spec):
